@@ -35,7 +35,7 @@ type mySQLUndoDeleteExecutor struct {
 // newMySQLUndoDeleteExecutor init
 func newMySQLUndoDeleteExecutor(sqlUndoLog undo.SQLUndoLog) *mySQLUndoDeleteExecutor {
 	return &mySQLUndoDeleteExecutor{
-		sqlUndoLog:   sqlUndoLog,
+		sqlUndoLog: sqlUndoLog,
 		// the rows to look at are the deleted ones: their keys are in the before image
 		baseExecutor: &BaseExecutor{sqlUndoLog: sqlUndoLog, undoImage: sqlUndoLog.BeforeImage},
 	}
